@@ -159,8 +159,9 @@ def _check_registry():
         if cls is None:
             continue
         if bool(spec.get("abstract")) != inspect.isabstract(cls):
-            problems.append(f"{n}: registry abstract={spec.get('abstract')}"
-                            f" but inspect.isabstract={inspect.isabstract(cls)}")
+            problems.append(
+                f"{n}: registry abstract={spec.get('abstract')} but "
+                f"inspect.isabstract={inspect.isabstract(cls)}")
     for n, spec in STRATEGIES.items():
         cls = getattr(S, n, None)
         if cls is None:
